@@ -308,6 +308,10 @@ impl Toks {
         for (n, x) in &t.refs {
             self.t("reference");
             self.t(n);
+            // the grammar allows a `*` marker after the name of a reference block
+            if n.ends_with('s') {
+                self.t("*");
+            }
             self.t("{");
             self.t("ref");
             self.t(":");
@@ -1151,7 +1155,7 @@ impl<'a> Gen<'a> {
         }
         self.in_locals = false;
         if self.r.chance(1, 4) {
-            t.refs.push(("myref".into(), self.utxo_ref()));
+            t.refs.push((if self.r.chance(1, 2) { "myref".into() } else { "myrefs".into() }, self.utxo_ref()));
         }
         let input_decls = self.inputs.clone();
         self.inputs.clear();
